@@ -30,7 +30,7 @@ REPO = Path(os.environ.get("VERIF_REPO", "/repo"))
 FLAG = {"GOOD": ".good", "UNKNOWN": ".unknown", "SUSPECT": ".suspect", "FAIL": ".fail", "MISSING": ".missing"}
 FUNCS = {"gross_range_test": "ioos_qc/qartod.py", "spike_test": "ioos_qc/qartod.py", "rate_of_change_test": "ioos_qc/qartod.py",
          "location_test": "ioos_qc/qartod.py", "density_inversion_test": "ioos_qc/qartod.py",
-         "flat_line_test": "ioos_qc/qartod.py", "climatology_test": "ioos_qc/qartod.py", "attenuated_signal_test": "ioos_qc/qartod.py", "save": "ioos_qc/stores.py", "qartod_compare": "ioos_qc/qartod.py", "speed_test": "ioos_qc/argo.py", "pressure_increasing_test": "ioos_qc/argo.py", "valid_range_test": "ioos_qc/axds.py"}
+         "flat_line_test": "ioos_qc/qartod.py", "climatology_test": "ioos_qc/qartod.py", "attenuated_signal_test": "ioos_qc/qartod.py", "save": "ioos_qc/stores.py", "collect_results_dict": "ioos_qc/results.py", "qartod_compare": "ioos_qc/qartod.py", "speed_test": "ioos_qc/argo.py", "pressure_increasing_test": "ioos_qc/argo.py", "valid_range_test": "ioos_qc/axds.py"}
 
 
 class Untranslatable(Exception):
@@ -1037,7 +1037,59 @@ class TrStore:
         return self.column_fn() + "\n" + head + "\n".join(out) + "\n    df) []\n"
 
 
+# ------------------------------------------------------------------------------------------------------------------------------
+# results.collect_results_dict: two nested loops filling a nested dict keyed by (stream id, package, test)
+# ------------------------------------------------------------------------------------------------------------------------------
+def translate_collect_dict():
+    tree = ast.parse((REPO / "ioos_qc/results.py").read_text())
+    fn = next(n for n in tree.body if isinstance(n, ast.FunctionDef) and n.name == "collect_results_dict")
+    body = [b for b in fn.body if not (isinstance(b, ast.Expr) and isinstance(b.value, ast.Constant))]
+    if not (len(body) == 3 and src(body[0]) == "collected = defaultdict(lambda: defaultdict(odict))" and isinstance(body[1], ast.For)
+            and src(body[1].target) == "r" and src(body[1].iter) == "results" and src(body[2]) == "return collected"):
+        raise Untranslatable("shape of collect_results_dict")
+    # the code of QartodFlags.UNKNOWN, read from the class
+    qt = ast.parse((REPO / "ioos_qc/qartod.py").read_text())
+    cls = next(n for n in qt.body if isinstance(n, ast.ClassDef) and n.name == "QartodFlags")
+    unknown = next((ast.literal_eval(n.value) for n in cls.body if isinstance(n, ast.Assign) and src(n.targets[0]) == "UNKNOWN"), None)
+    if not isinstance(unknown, int):
+        raise Untranslatable("QartodFlags.UNKNOWN")
+    out = ["  let mut collected : DState := []", "  for r in results do"]
+    key = "(r.stream, testpackage, testname)"
+    pending_empty = False
+    for st in body[1].body:
+        t = src(st)
+        if isinstance(st, ast.If) and src(st.test) == "isinstance(r, CallResult)" and src(st.body[-1]) == "continue" and not st.orelse:
+            continue                         # results of QcConfig.run handed over directly: outside the stream pipeline
+        if t == "flag_arr = np.ma.empty_like(r.subset_indexes, dtype='uint8')":
+            pending_empty = True
+            continue
+        if t == "flag_arr.fill(QartodFlags.UNKNOWN)" and pending_empty:
+            out.append(f"    let flag_arr := emptyLikeFilled r.subset {unknown}")
+            pending_empty = False
+            continue
+        if isinstance(st, ast.For) and src(st.target) == "tr" and src(st.iter) == "r.results" and not st.orelse:
+            out.append("    for tr in r.results do")
+            for s2 in st.body:
+                t2 = src(s2)
+                if t2 in ("testpackage = tr.package", "testname = tr.test", "testresults = tr.results"):
+                    out.append(f"      let {t2.split(' = ')[0]} := {t2.split(' = ')[1]}")
+                elif isinstance(s2, ast.If) and src(s2.test) == "testname not in collected[r.stream_id][testpackage]" and not s2.orelse \
+                        and [src(b) for b in s2.body] == ["collected[r.stream_id][testpackage][testname] = np.copy(flag_arr)"]:
+                    out.append(f"      if !(dhas collected {key}) then")
+                    out.append(f"        collected := dset collected {key} flag_arr")
+                elif t2 == "collected[r.stream_id][testpackage][testname][r.subset_indexes] = testresults":
+                    out.append(f"      collected := dset collected {key} (scatter (dget collected {key}) r.subset testresults)")
+                else:
+                    raise Untranslatable(f"collect_results_dict: {t2[:70]}")
+            continue
+        raise Untranslatable(f"collect_results_dict: {t[:70]}")
+    out.append("  return collected")
+    return "def collect_results_dict (results : List CR) : DState := Id.run do\n" + "\n".join(out) + "\n"
+
+
 def translate(name: str) -> str:
+    if name == "collect_results_dict":
+        return translate_collect_dict()
     if name == "save":
         return TrStore(ast.parse((REPO / "ioos_qc/stores.py").read_text())).run()
     if name == "attenuated_signal_test":
